@@ -18,7 +18,7 @@ claimed={
  "C15":("real ListenAndServe over a fake listener: a client stream cut at every byte offset then EOF; at quiescence sockets and backend connections closed, no goroutine or key lock left, a fresh client served","§C15","symbolic execution of accept loop + connection loop, cut offset as environment choice, quiescence assertions"),
  "C16":("chunk arithmetic kernels with symbolic lengths: sizes for all key lengths, FP chunk count per key length, slice indices, reader step induction, metadata of the real set path on an abstract-length value","§C16","symbolic execution + SMT incl. floating-point theory"),
  "C17":("real inmem.Handler vs reference map: one symbolic command from every 2-key map state; 2 goroutines x 1 command under every interleaving at lock granularity with a lock-discipline monitor on the shared map","§C17","symbolic execution + SMT; exhaustive schedule exploration (bounded) with lock-discipline monitor"),
- "C18":("bit-count routine (amd64 assembly translated, portable body) equals its specification on all 2^64 inputs; bucket index in range, upper bound and monotone for all n <= 2^63-1","§C18","SSA and assembly translated to SMT bit-vectors, Z3"),
+ "C18":("bit-count routine (amd64 assembly translated, portable body) equals its specification on all 2^64 inputs; bucket index in range, upper bound and monotone for all n <= 2^63-1; histogram periods read back through getAll*: count, percentiles within [min,max] and among the observations, ring wrap-around; counters = sum of increments under every interleaving of 2 goroutines; observer vs period switch under every interleaving","§C18","SSA and assembly translated to SMT bit-vectors, Z3"),
  "C19":("ring lookup for every 32-bit location on enumerated label sets: specification, order independence, single-removal stability","§C19","symbolic execution + SMT, one path per ring interval"),
 }
 notes={
@@ -37,7 +37,7 @@ notes={
  "C15":"4 representative request streams (3 text, 1 binary), std handlers; chunked handler and half-open connections outside the bound",
  "C16":"FP detour decided for key lengths {1,5,100,250} (quick) + {2,16,50,150,200,249} (thorough); reader step buffer length <= 8",
  "C17":"TTLs up to 30 days; 2 goroutines x 1 command; boundary second exptime == now left out",
- "C18":"counters and histogram percentiles are not yet part of this check (kernels only)",
+ "C18":"histograms: unsampled, <= 2 (quick) / 3 (thorough) observations per period; 2 goroutines; float average and HTTP rendering not compared",
  "C19":"label sets enumerated: sizes 1,2,3,4,8 (quick), 3,5,16,32 (thorough); MD5 trusted; key->location hashing covered by quantifying over all locations",
 }
 checks=[]
